@@ -124,6 +124,19 @@ def install_events():
             raise ContractViolation("PriceLimitRule.hooked_before_order", "no-raise: orders for markets that are not targets are accepted unchanged", repr(e))
     wrap(PriceLimitRule, "hooked_before_order", pl_pre, pl_post, pl_raise)
 
+    def glp_pre(rule, order, market):
+        return dict(price=order.price, p0=market.get_market_price(0), r=rule.trigger_change_rate, state={k: v for k, v in vars(rule).items() if k != "target_markets"})
+
+    def glp_post(rule, c, res, order, market):
+        if (res is None) != (c["price"] is None):
+            raise ContractViolation("PriceLimitRule.get_limited_price", "market orders pass unchanged", (c["price"], res))
+        if res is not None:
+            lo, hi = c["p0"] * (1 - c["r"]), c["p0"] * (1 + c["r"])
+            want = min(max(c["price"], lo), hi) if lo <= hi else None
+            if want is not None and abs(res - want) > 1e-9 * max(1.0, abs(want)):
+                raise ContractViolation("PriceLimitRule.get_limited_price", "limit price clipped into the band around the time-0 price", dict(price=c["price"], p0=c["p0"], r=c["r"], result=res, expected=want))
+    wrap(PriceLimitRule, "get_limited_price", glp_pre, glp_post)
+
     def ms_pre(ev, simulator, order):
         m = simulator.id2market[order.market_id]
         return dict(fields=_order_fields(order), trig=ev.triggerd, same=order.market_id == ev.target_market.market_id, mp=m.get_market_price())
@@ -287,6 +300,12 @@ def install_market_ops():
             on_grid = _math.isclose(p0 / tick, round(p0 / tick), abs_tol=1e-9) and p0 % tick == 0
             if on_grid and p1 != p0:
                 raise ContractViolation(F, "C19 a price on the grid is accepted unchanged", (p0, p1))
+            from fractions import Fraction as _Fr
+            if _math.frexp(tick)[0] == 0.5:
+                # a power-of-two tick: quotient, floor / ceil and the product back are exact in binary floating point, so the clause is checked exactly
+                q = _Fr(p0) / _Fr(tick); lvl = q.__floor__() if c["is_buy"] else q.__ceil__()
+                if _Fr(p1) != lvl * _Fr(tick):
+                    raise ContractViolation(F, "C19 buy limit price rounds down by less than one tick" if c["is_buy"] else "C19 sell limit price rounds up by less than one tick", (p0, p1, tick, "exact arithmetic"))
             if c["is_buy"] and not (p1 <= p0 + 1e-9 and p0 - p1 < tick + 1e-9):
                 raise ContractViolation(F, "C19 buy limit price rounds down by less than one tick", (p0, p1, tick))
             if not c["is_buy"] and not (p1 >= p0 - 1e-9 and p1 - p0 < tick + 1e-9):
